@@ -2,6 +2,7 @@ package props
 
 import (
 	"bytes"
+	"crypto/sha256"
 	"fmt"
 	"io"
 	"os"
@@ -89,6 +90,23 @@ func c03Case(c *core.Ctx) *core.Result {
 		res.Count("tobytes_errors", 1)
 		return res
 	}
+	// what ToBytes handed out belongs to the caller: every returned slice is fingerprinted on return and looked at again after
+	// all later library calls of the case
+	type handed struct {
+		b   []byte
+		sum [32]byte
+		by  string
+	}
+	outs := []handed{{raw1, sha256.Sum256(raw1), "ToBytes#1"}}
+	defer func() {
+		for _, h := range outs {
+			res.Count("returned_buffers_rechecked", 1)
+			if sha256.Sum256(h.b) != h.sum {
+				res.Add("returned-bytes-changed-by-later-calls", "the bytes returned by "+h.by+" were modified by later library calls (the result aliases library-owned memory)", note)
+				break
+			}
+		}
+	}()
 	c1 := mainCanon(raw1)
 	if c1 == nil {
 		res.Count("main_part_unreadable(C01)", 1)
@@ -144,6 +162,7 @@ func c03Case(c *core.Ctx) *core.Result {
 			res.Add("resave/error", "saving the reopened document failed: "+oerr.Error(), note)
 			return res
 		}
+		outs = append(outs, handed{raw2, sha256.Sum256(raw2), fmt.Sprintf("ToBytes#%d", cycle+1)})
 		c2 := mainCanon(raw2)
 		if c2 == nil {
 			res.Add("resave/main-part-illformed", "the main part written after reopening is not well-formed", note)
